@@ -1605,7 +1605,9 @@ pub fn caught_sites(p: &Program) -> Vec<(usize, usize)> {
         for (pc, op) in th.iter().enumerate() {
             let ok = match op {
                 Op::Unlock { .. } | Op::RUnlock { .. } | Op::WUnlock { .. } | Op::TrackDrop { .. } | Op::Dealloc { .. } | Op::DropTx { .. } | Op::Unpark { .. } => true,
-                Op::DropRx { .. } | Op::ArcDrop { .. } | Op::Store { .. } | Op::Send { .. } | Op::CvOne { .. } | Op::CvAll { .. } | Op::NNotify { .. } | Op::CWrite { .. } => quiescent_at(p, t, pc),
+                Op::DropRx { .. } | Op::ArcDrop { .. } | Op::Store { .. } | Op::Send { .. } | Op::CvOne { .. } | Op::CvAll { .. } | Op::NNotify { .. } | Op::CWrite { .. } | Op::CRead { .. } | Op::Load { .. } | Op::FetchAdd { .. } => {
+                    quiescent_at(p, t, pc)
+                }
                 _ => false,
             };
             if ok {
